@@ -8,6 +8,7 @@ transition on the real objects and redraws; every redraw is judged (see props/c1
 from __future__ import annotations
 
 import copy
+import errno
 import gc
 import weakref
 
@@ -31,10 +32,25 @@ class Out:
         self.buf = []
         self.written = []      # everything written, in order (strings)
         self.flushes = 0
+        self.fault_k = None    # the k-th write from now on raises once (the bytes are not taken)
+        self.fault_n = 0
+        self.fault_fired = False
+        self.fault_payload = None
+        self.injected = None
+
+    def arm(self, k):
+        self.fault_k, self.fault_n, self.fault_fired, self.fault_payload, self.injected = k, 0, False, None, None
 
     def write(self, s):
         if not isinstance(s, str):
             raise TypeError("screen output must be str")
+        if self.fault_k is not None and not self.fault_fired:
+            self.fault_n += 1
+            if self.fault_n == self.fault_k:
+                self.fault_fired = True
+                self.fault_payload = s
+                self.injected = BlockingIOError(errno.EAGAIN, "Resource temporarily unavailable (injected)")
+                raise self.injected
         self.buf.append(s)
         self.written.append(s)
         return len(s)
@@ -318,6 +334,10 @@ class Stage:
         ow, oh = self.ov_size()
         for op in alphabet:
             k = op[0]
+            if k == "F":
+                if self.enabled_ops([tuple(op[2:])]):
+                    ops.append(op)
+                continue
             if k == "ov":
                 if ov["on"] and 0 <= ov["x"] + op[1] <= self.W - ow and 0 <= ov["y"] + op[2] <= self.H - oh:
                     ops.append(op)
@@ -348,7 +368,13 @@ class Stage:
         return ops
 
     def apply(self, op):
-        """One transition + redraw.  Raises Dead when the code under test raised."""
+        """One transition + redraw.  Raises Dead when the code under test raised.
+        ("F", k, *op): the same transition, but the k-th write of its redraw fails once (EAGAIN); the
+        application survives (the exception is swallowed here) and goes on."""
+        fault = None
+        if op[0] == "F":
+            fault, op = op[1], tuple(op[2:])
+        self._fault_next_draw = fault
         sp = self.spec
         ov = sp["ov"]
         k = op[0]
@@ -387,6 +413,7 @@ class Stage:
             i = next(i for i, e in enumerate(sp["slots"]) if e[0] == "txt")
             sp["slots"][i] = ["img", self.create(op[1])]
         elif k == "clear":
+            self.cells_tainted = False
             self.guard("clear", self.screen.clear)
             self.out.flush()       # "cleared when next the output buffer is flushed"
             self.check_cleared("clear")
@@ -468,18 +495,37 @@ class Stage:
         n_err = len(self.term.errors)
         wraps, scrolls = self.term.wraps, self.term.scrolls
         flushes = self.out.flushes
+        fault = getattr(self, "_fault_next_draw", None)
+        self._fault_next_draw = None
+        self.out.arm(fault)
+        raised = None
         try:
             self.screen.draw_screen(size, canvas)
         except Exception as e:  # noqa: BLE001
+            raised = e
+        finally:
+            self.out.fault_k = None
+        if self.out.fault_fired:
+            self.judge_failed_redraw(raised, n_written, n_events, ck)
+            del canvas
+            gc.collect()
+            return
+        if raised is not None:
+            e = raised
             self.report(dict(clause="exception", exc=type(e).__name__, where="draw_screen", identity=self.ident,
                              top_canvas=ck, prev_top_canvas=self.prev_top_kind, prev_images=had_images),
                         f"draw_screen of a {ck} canvas ({type(canvas).__name__}) after a frame "
                         f"{'with' if had_images else 'without'} tracked images raised {type(e).__name__}: {e}")
             raise Dead from e
+        self.last_faulted = False
         data = "".join(self.out.written[n_written:])
         unflushed = bool(self.out.buf)
         self.out.flush()
         ctx = dict(identity=self.ident, top_canvas=ck, prev_top_canvas=self.prev_top_kind)
+        if getattr(self, "last_fault_where", None):
+            # an earlier redraw of this execution lost a write: say which kind, so that such findings are told
+            # apart from failures of fault-free histories
+            ctx["after_fault"] = self.last_fault_where
         # -- bracket
         sync = [e[1] for e in self.term.events[n_events:] if e[0] == "sync"]
         if not (data.startswith(BEGIN) and data.endswith(END) and data.count(BEGIN) == 1
@@ -545,12 +591,49 @@ class Stage:
                 for c in range(self.W):
                     if row[c].key() != wrow[c] and (r, c) not in covered:
                         bad.append((r, c, row[c].key(), wrow[c]))
-            if bad and got_p == want_p:
+            # after a lost write urwid's own line cache (screen_buf) no longer describes the terminal; stale text
+            # is then urwid's doing and text cells are not part of the property: judged again after a full repaint
+            if bad and got_p == want_p and not getattr(self, "cells_tainted", False):
                 self.report(dict(clause="cells", **ctx),
                             f"{len(bad)} text cell(s) differ from a fresh draw, first: {bad[0]}; scene={self.spec}")
         self.prev_top_kind = ck
         del canvas, ref
         gc.collect()
+
+    def judge_failed_redraw(self, raised, n_written, n_events, ck):
+        """A write of this redraw failed once.  Whatever the redraw did put out must still lie between one
+        synchronized-update begin/end pair (nothing is judged when the refused bytes are the bracket's own
+        BEGIN or END: no implementation can bracket with a write that fails)."""
+        self.last_faulted = True
+        self.cells_tainted = True
+        self.faults_fired = getattr(self, "faults_fired", 0) + 1
+        payload = self.out.fault_payload
+        where = ("begin" if payload == BEGIN else "end" if payload == END else
+                 "delete" if payload.startswith("\x1b_Ga=d") else "paint")
+        data = "".join(self.out.written[n_written:])
+        self.out.flush()      # whatever is still buffered reaches the terminal eventually
+        self.last_fault_where = where
+        ctx = dict(identity=self.ident, top_canvas=ck, prev_top_canvas=self.prev_top_kind, fault_in=where)
+        chain = []
+        e = raised
+        while e is not None and len(chain) < 5:
+            chain.append(e)
+            e = e.__cause__ or e.__context__
+        if raised is not None and self.out.injected not in chain:
+            self.report(dict(clause="exception-during-failed-redraw", exc=type(raised).__name__, **ctx),
+                        f"a failing write made draw_screen raise an unrelated {type(raised).__name__}: {raised}")
+        sync = [ev[1] for ev in self.term.events[n_events:] if ev[0] == "sync"]
+        if where not in ("begin", "end") and data:
+            if not (data.startswith(BEGIN) and data.endswith(END) and data.count(BEGIN) == 1
+                    and data.count(END) == 1 and sync == [True, False]):
+                self.report(dict(clause="sync-bracket-failed-redraw", **ctx),
+                            f"a write failed during the redraw ({where}: {payload[:20]!r}); its output is not bracketed "
+                            f"by one synchronized-update pair: starts {data[:12]!r} ends {data[-12:]!r} "
+                            f"begin x{data.count(BEGIN)} end x{data.count(END)}")
+        if self.term.errors and not getattr(self, "_errs_seen", 0) == len(self.term.errors):
+            pass     # a write cut out of the middle of the stream may leave malformed sequences: not judged
+        self._errs_seen = len(self.term.errors)
+        self.prev_top_kind = ck
 
     _fresh_cache = {}
     _world_key = None
